@@ -327,6 +327,7 @@ class Engine:
         self.work = [[]]
         t0 = time.time()
         truncated = False
+        self.cut = False   # a harness sets this when it gives up part of its own exploration (budget): reported as truncated
         prev = ENGINE
         ENGINE = self
         try:
@@ -366,7 +367,7 @@ class Engine:
         finally:
             ENGINE = prev
             self.running = False
-        return truncated
+        return truncated or bool(self.cut)
 
 
 def _caller_site(depth):
